@@ -52,7 +52,7 @@ ALSO = {
     # a panic of the real crate means the redundant encodings of the edge set disagree: it concerns both graph properties
     'C10': ('C11.bounded.query_does_not_panic',),
     'C11': ('C10.bounded.operation_does_not_panic',),
-    'C07': ('C10.bounded.operation_does_not_panic', 'C10.add_edge.cycle_rejected_exactly_when_dst_reaches_src', 'C10.bounded.every_edge_increases_rank', 'C11.contains_transitive_edge.exact'),
+    'C07': ('C10.bounded.operation_does_not_panic', 'C11.bounded.query_does_not_panic', 'C10.add_edge.cycle_rejected_exactly_when_dst_reaches_src', 'C10.bounded.every_edge_increases_rank', 'C11.contains_transitive_edge.exact'),
     'C05': ('C11.contains_transitive_edge.exact',),
     'C06': ('C11.contains_transitive_edge.exact',),
     'C02': ('C11.bounded.get_outgoing_edges_in_insertion_order_with_data', 'C11.bounded.get_outgoing_edge_data', 'C11.add_edge.existing_edge_reported'),
